@@ -423,9 +423,10 @@ Definition address_for_script (net : network) (script : bytes) : outcome (option
   do i <- info_for_script script; address_for_script_info net i.
 
 (* ---- ParseAPI; a Contract is its script_info ---- *)
-Definition parse_b58 (prefix : option bytes) (payload_len : nat) (mk : bytes -> info) (s : bytes)
+(* the body of p2pkh / p2sh once `data = self.parse_b58_hashed(s)` is known *)
+Definition parse_b58_data (data : option bytes) (prefix : option bytes) (payload_len : nat) (mk : bytes -> info)
   : outcome (option info) :=
-  match b58check_decode s, prefix with
+  match data, prefix with
   | Some data, Some p =>
     if negb (starts_with p data) then Ret None
     else if negb (length data =? length p + payload_len)%nat then Ret None
@@ -433,12 +434,15 @@ Definition parse_b58 (prefix : option bytes) (payload_len : nat) (mk : bytes -> 
          do i <- info_for_script script; Ret (Some i)
   | _, _ => Ret None
   end.
+Definition parse_b58 (prefix : option bytes) (payload_len : nat) (mk : bytes -> info) (s : bytes)
+  : outcome (option info) := parse_b58_data (b58check_decode s) prefix payload_len mk.
 Definition parse_p2pkh (net : network) := parse_b58 (nr_pkh net) p2pkh_payload_len IP2PKH.
 Definition parse_p2sh (net : network) := parse_b58 (nr_sh net) p2sh_payload_len IP2SH.
 
-Definition parse_bech32m (net : network) (s : bytes) (expected_version : N) (blob_len : nat) (mk : bytes -> info)
-  : outcome (option info) :=
-  match segwit_parse s with
+(* the body of _bech32m once `v = parse_bech32(s)` is known *)
+Definition parse_bech32m_data (v : option (bytes * N * bytes * N)) (net : network) (expected_version : N) (blob_len : nat)
+  (mk : bytes -> info) : outcome (option info) :=
+  match v with
   | None => Ret None
   | Some (hr_prefix, version, decoded_data, spec) =>
     match nr_hrp net with
@@ -453,6 +457,8 @@ Definition parse_bech32m (net : network) (s : bytes) (expected_version : N) (blo
            do i <- info_for_script script; Ret (Some i)
     end
   end.
+Definition parse_bech32m (net : network) (s : bytes) (expected_version : N) (blob_len : nat) (mk : bytes -> info)
+  : outcome (option info) := parse_bech32m_data (segwit_parse s) net expected_version blob_len mk.
 
 Definition segwit_args (k : nat) : N * nat :=
   match nth_error segwit_parsers k with Some (_, v, l, _) => (v, l) | None => (99, 0%nat) end.
@@ -473,6 +479,46 @@ Definition parse_address (net : network) (s : bytes) : outcome (option info) :=
   (or_else (parse_p2pkh_segwit net s)
   (or_else (parse_p2sh_segwit net s)
            (parse_p2tr net s)))).
+
+(* ---- the parseable_str cache as explicit state ----
+   ParseAPI.address wraps its argument in parseable_str; a parseable_str that is passed in again (ku's parse_key offers the
+   SAME object to every network) carries `_cache`, a dict filled by parseable_str.cache(key, f).  The keys in use today
+   (Gen/GenNetworks.parse_cache_keys, harvested from parseable_str.py; no other module of pycoin/networks calls .cache)
+   are "b58" (inside the Base58Check oracle), "b58_double_sha256", "bech32" and "colon_prefix": all are functions of the
+   TEXT alone, none mentions a network.  The two that the address parsers read are modelled: *)
+Record pcache := mk_pcache {
+  c_b58chk : option (option bytes);                       (* _cache["b58_double_sha256"] *)
+  c_bech32 : option (option (bytes * N * bytes * N)) }.   (* _cache["bech32"] *)
+Definition pcache_empty : pcache := mk_pcache None None.
+
+(* ps.cache(key, f): the stored value if the key is present, else f(ps) *)
+Definition eff_b58 (c : pcache) (s : bytes) : option bytes :=
+  match c_b58chk c with Some v => v | None => b58check_decode s end.
+Definition eff_bech32 (c : pcache) (s : bytes) : option (bytes * N * bytes * N) :=
+  match c_bech32 c with Some v => v | None => segwit_parse s end.
+
+(* ParseAPI.address on a parseable_str with cache c: result and the cache afterwards.  p2pkh always asks for
+   "b58_double_sha256"; "bech32" is asked for only when both Base58 parsers returned None. *)
+Definition parse_address_st (net : network) (s : bytes) (c : pcache) : outcome (option info) * pcache :=
+  let d := eff_b58 c s in
+  let r12 := or_else (parse_b58_data d (nr_pkh net) p2pkh_payload_len IP2PKH)
+                     (parse_b58_data d (nr_sh net) p2sh_payload_len IP2SH) in
+  match r12 with
+  | Ret None =>
+    let b := eff_bech32 c s in
+    (or_else (parse_bech32m_data b net (fst (segwit_args 0)) (snd (segwit_args 0)) IP2PKH_WIT)
+       (or_else (parse_bech32m_data b net (fst (segwit_args 1)) (snd (segwit_args 1)) IP2SH_WIT)
+                (parse_bech32m_data b net (fst (segwit_args 2)) (snd (segwit_args 2)) IP2TR)),
+     mk_pcache (Some d) (Some b))
+  | _ => (r12, mk_pcache (Some d) (c_bech32 c))
+  end.
+
+(* one parseable_str offered to a list of networks in turn (pycoin.cmds.ku.parse_key) *)
+Fixpoint parse_address_seq (nets : list network) (s : bytes) (c : pcache) : list (outcome (option info)) :=
+  match nets with
+  | [] => []
+  | net :: rest => let '(r, c') := parse_address_st net s c in r :: parse_address_seq rest s c'
+  end.
 
 (* Contract.script() and Contract.address() of the parse result *)
 Definition contract_script (i : info) : outcome bytes := for_info i.
